@@ -61,6 +61,7 @@ def run(pid, tier, seed):
     rep = Reporter(pid, tier, seed, "model_checking")
     rng = random.Random(seed * 9973 + 11)
     common.build_s4()
+    common.build_harness(["mk_lz4"])
     with Scratch(pid) as sc:
         consts = {"YL": 6, "TH": 1, "MaxN": 4 if tier == "quick" else 5, "Y0": 10}
         cfg = write_cfg(os.path.join(sc, "tlc", "yw.cfg"), consts, spec="Spec", invariants=["Correct", "WindowCovered", "YearSane"],
@@ -90,7 +91,7 @@ def run(pid, tier, seed):
             mt_local = rng.choice([last, last + 1, min(end_of_year, last + 86400 * 3), end_of_year - rng.randrange(0, 3600)])
             mt_local = max(mt_local, last)
             mtime = mt_local - tz_min * 60
-            cont = rng.choice(["plain", "plain", "gz", "gz-fname", "gz-mtime0", "tar"])
+            cont = rng.choice(["plain", "plain", "gz", "gz-fname", "gz-mtime0", "tar", "bz2", "xz", "lz4"])
             name = "y%d.log" % fi
             decoy = mtime - 86400 * 900  # a misleading container mtime
             if cont == "plain":
@@ -103,6 +104,10 @@ def run(pid, tier, seed):
             elif cont == "gz-mtime0":
                 # header time stamp 0 = "no time stamp available" (gzip -n, RFC 1952): the file's own modification time counts
                 files, arg, mtimes = {name + ".gz": gen.gz_bytes(blob, mtime=0, name=rng.choice([None, name]))}, name + ".gz", {name + ".gz": mtime}
+            elif cont in ("bz2", "xz", "lz4"):
+                # no time stamp of their own: the compressed file's modification time counts
+                data_ = {"bz2": lambda: gen.bz2_bytes(blob, 1), "xz": lambda: gen.xz_bytes(blob), "lz4": lambda: gen.lz4_bytes(blob)}[cont]()
+                files, arg, mtimes = {name + "." + cont: data_}, name + "." + cont, {name + "." + cont: mtime}
             else:
                 files, arg, mtimes = {"y%d.tar" % fi: gen.tar_bytes([(name, blob)], mtime=mtime)}, "y%d.tar" % fi, {"y%d.tar" % fi: decoy}
             tzs = "%s%02d:%02d" % ("+" if tz_min >= 0 else "-", abs(tz_min) // 60, abs(tz_min) % 60)
